@@ -44,6 +44,18 @@ func (z *verifZlibReader) Close() error { return nil }
 
 func verifZlibStub(r io.Reader) (io.ReadCloser, error) {
 	in, _, _ := rd.Drain(r, 1<<20)
+	// deterministic in its input: the same compressed bytes inflate the same way
+	for i, prev := range VerifZlibIn {
+		if verifSameBytes(prev, in) {
+			VerifZlibIn = append(VerifZlibIn, in)
+			VerifZlibMode = append(VerifZlibMode, VerifZlibMode[i])
+			VerifZlibOut = append(VerifZlibOut, VerifZlibOut[i])
+			if VerifZlibMode[i] == 0 {
+				return nil, errVerifZlib
+			}
+			return &verifZlibReader{data: VerifZlibOut[i], fail: VerifZlibMode[i] == 2}, nil
+		}
+	}
 	VerifZlibIn = append(VerifZlibIn, in)
 	mode := verifChoice(3)
 	VerifZlibMode = append(VerifZlibMode, mode)
